@@ -43,7 +43,7 @@ Check(e) == \A a \in Actors :
 
 Init == l = 1 /\ A = InitS /\ nb = 0 /\ ov = FALSE
         /\ cfg = [strat |-> "one", typed |-> "none", ptyped |-> "default", any |-> "none", late |-> FALSE,
-                  max |-> 0, win |-> "zero", backoff |-> FALSE]
+                  max |-> 0, win |-> "zero", backoff |-> FALSE, mix |-> FALSE]
         /\ pcfg = [dir |-> "Stop", onsig |-> "ignore"]
 
 Step ==
